@@ -53,7 +53,7 @@ def cases(draw, tier):
     n = draw(st.integers(1, 6))
     params = []
     for _ in range(n):
-        params.append(dict(shape=draw(shapes()), tag=draw(st.sampled_from(TAGS)),
+        params.append(dict(shape=draw(shapes()), tag=draw(st.sampled_from(TAGS)), frozen=draw(st.integers(0, 5)) == 0,
                            depth=draw(st.one_of(st.none(), st.none(), st.integers(1, 1024), st.sampled_from([1, 2, 3, 4, 1024])))))
     lr = draw(st.floats(math.log(1e-8), math.log(1e2)).map(lambda v: float(f"{math.exp(v):.6g}")) | st.sampled_from([1e-8, 1e2, 1.0, 1e-3]))
     layout = draw(st.sampled_from(["list", "generator", "groups", "groups-own-lr", "groups-mixed"]))
@@ -80,6 +80,8 @@ def make_params(c):
             ps.append(nn.Parameter(torch.empty(shape)))
         else:
             ps.append(uu.Parameter(torch.empty(shape), p["tag"], p["depth"]))
+        if p.get("frozen"):
+            ps[-1].requires_grad_(False)   # a frozen parameter still gets the u-muP learning rate of its tag
     return ps
 
 
